@@ -6,9 +6,8 @@
 //!   RelocateReader<EndianRcSlice, Id> (identity relocation that counts how often it is consulted)
 //! and answers in the Model's trace format (`lean/Gimli/Drv/C10.lean`).
 //! Direct oracles (independent of the Model):
-//!   * `kinds-differ`      – two kinds give different traces (other than through C10-1 below)
-//!   * `slice-empty-detaches` – the traces differ only at readers that went through
-//!                           `EndianSlice::empty()` (known finding C10-1)
+//!   * `kinds-differ`      – two kinds give different traces (this includes a reader that leaves
+//!                           the section on `empty()`: C10-1, repaired in the repository)
 //!   * `outside-buffer`    – a reader / returned slice / string points outside the source buffer
 //!   * `copied`            – `to_slice`/`to_string` of a valid window is not `Cow::Borrowed`
 //!   * `offset-from`       – `offset_from(section)` differs from the pointer difference
@@ -224,8 +223,6 @@ impl Win {
 pub struct Run {
     pub trace: Vec<String>,
     pub problems: Vec<String>,
-    /// per operation: it involved a reader (or an offset id of a reader) that went through `empty()`
-    pub tainted: Vec<bool>,
 }
 
 fn problem(p: &mut Vec<String>, class: &str, detail: String) {
@@ -281,9 +278,8 @@ pub fn run_hist<R: Reader<Offset = usize>>(
     ops: &[Op],
     consulted: Option<&CountId>,
     live: Option<(&Rc<Cell<i64>>, i64)>,
-    emptied_is_detached: bool,
 ) -> Run {
-    run_hist_probe(section, buf, ops, consulted, live, emptied_is_detached, None)
+    run_hist_probe(section, buf, ops, consulted, live, None)
 }
 
 /// `probe` (if given) is set to `true` exactly while the operation proper executes, so that a
@@ -294,7 +290,6 @@ pub fn run_hist_probe<R: Reader<Offset = usize>>(
     ops: &[Op],
     consulted: Option<&CountId>,
     live: Option<(&Rc<Cell<i64>>, i64)>,
-    emptied_is_detached: bool,
     probe: Option<&Cell<bool>>,
 ) -> Run {
     let mut problems = Vec::new();
@@ -303,27 +298,15 @@ pub fn run_hist_probe<R: Reader<Offset = usize>>(
         _ => 0,
     };
     let mut rs: Vec<Option<R>> = vec![Some(section.clone())];
-    // readers that went through `empty()` (or were derived from such a reader)
-    let mut emptied: Vec<bool> = vec![false];
     let mut ids: Vec<ReaderOffsetId> = Vec::new();
-    let mut id_emptied: Vec<bool> = Vec::new();
     let mut trace = Vec::new();
-    let mut tainted = Vec::new();
     for op in ops {
         let (i, j) = op.readers();
         let bad_id = if let Op::Lookup(_, k) = op { *k >= ids.len() } else { false };
         if bad_id || rs.get(i).map_or(true, |r| r.is_none()) || j.map_or(false, |j| rs.get(j).map_or(true, |r| r.is_none())) {
             trace.push("bad@~".to_string());
-            tainted.push(false);
             continue;
         }
-        if matches!(op, Op::Empty(_)) {
-            emptied[i] = true;
-        }
-        if matches!(op, Op::OffId(_)) {
-            id_emptied.push(emptied[i]);
-        }
-        tainted.push(emptied[i] || j.map_or(false, |j| emptied[j]) || if let Op::Lookup(_, k) = op { id_emptied[*k] } else { false });
         let before = consulted.map(|c| c.0.get());
         let mut newr: Option<R> = None;
         let mut dropped = false;
@@ -470,7 +453,7 @@ pub fn run_hist_probe<R: Reader<Offset = usize>>(
                     Ok(Cow::Owned(_)) => problem(&mut problems, "copied", format!("{op:?}")),
                     Ok(Cow::Borrowed(s)) => {
                         let p = s.as_ptr() as usize;
-                        if !(p >= base && p + s.len() <= base + buf.len()) && !(emptied_is_detached && emptied[i]) {
+                        if !(p >= base && p + s.len() <= base + buf.len()) {
                             problem(&mut problems, "outside-buffer", format!("{op:?}"));
                         }
                     }
@@ -506,9 +489,7 @@ pub fn run_hist_probe<R: Reader<Offset = usize>>(
             let r = rs[i].as_ref().unwrap();
             let w = window(r, base, buf, &mut problems, "target");
             if let Win::Det(_) = w {
-                if !(emptied_is_detached && emptied[i]) {
-                    problem(&mut problems, "outside-buffer", format!("reader {i} after {op:?}"));
-                }
+                problem(&mut problems, "outside-buffer", format!("reader {i} after {op:?}"));
             } else if let Win::At(o, _) = w {
                 // offset_from(section) must be the pointer difference
                 match caught(|| r.offset_from(&section)) {
@@ -524,14 +505,11 @@ pub fn run_hist_probe<R: Reader<Offset = usize>>(
             if let Some(n) = newr {
                 let wn = window(&n, base, buf, &mut problems, "returned");
                 if let Win::Det(_) = wn {
-                    if !(emptied_is_detached && emptied[i]) {
-                        problem(&mut problems, "outside-buffer", format!("reader returned by {op:?}"));
-                    }
+                    problem(&mut problems, "outside-buffer", format!("reader returned by {op:?}"));
                 }
                 t.push('>');
                 t.push_str(&wn.render());
                 rs.push(Some(n));
-                emptied.push(emptied[i]);
             }
             trace.push(t);
         }
@@ -553,7 +531,7 @@ pub fn run_hist_probe<R: Reader<Offset = usize>>(
             problem(&mut problems, "handle-leak", format!("{} live handles after dropping every reader", live.get()));
         }
     }
-    Run { trace, problems, tainted }
+    Run { trace, problems }
 }
 
 fn endian(s: &str) -> Option<RunTimeEndian> {
@@ -578,19 +556,19 @@ pub fn handle(op: &str, a: &[&str]) -> Option<String> {
             // every kind over its own copy of the section, each a real heap allocation
             let mut v = Vec::with_capacity(bytes.len().max(1));
             v.extend_from_slice(&bytes);
-            let slice = run_hist(EndianSlice::new(&v[..], e), &v, &ops, None, None, true);
+            let slice = run_hist(EndianSlice::new(&v[..], e), &v, &ops, None, None);
             let rc: Rc<[u8]> = Rc::from(&bytes[..]);
-            let shared = run_hist(EndianRcSlice::new(rc.clone(), e), &rc, &ops, None, None, false);
+            let shared = run_hist(EndianRcSlice::new(rc.clone(), e), &rc, &ops, None, None);
             let arc: Arc<[u8]> = Arc::from(&bytes[..]);
-            let arcr = run_hist(EndianArcSlice::new(arc.clone(), e), &arc, &ops, None, None, false);
+            let arcr = run_hist(EndianArcSlice::new(arc.clone(), e), &arc, &ops, None, None);
             let live = Rc::new(Cell::new(0i64));
             let cb = Custom::new(&bytes, live.clone());
             let cbuf: Rc<Vec<u8>> = cb.data.clone();
-            let custom = run_hist(EndianReader::new(cb, e), &cbuf, &ops, None, Some((&live, 1)), false);
+            let custom = run_hist(EndianReader::new(cb, e), &cbuf, &ops, None, Some((&live, 1)));
             let cnt = CountId(Rc::new(Cell::new(0)), Rc::new(Cell::new((0, 0))));
-            let rslice = run_hist(RelocateReader::new(EndianSlice::new(&v[..], e), cnt.clone()), &v, &ops, Some(&cnt), None, true);
+            let rslice = run_hist(RelocateReader::new(EndianSlice::new(&v[..], e), cnt.clone()), &v, &ops, Some(&cnt), None);
             let cnt2 = CountId(Rc::new(Cell::new(0)), Rc::new(Cell::new((0, 0))));
-            let rshared = run_hist(RelocateReader::new(EndianRcSlice::new(rc.clone(), e), cnt2.clone()), &rc, &ops, Some(&cnt2), None, false);
+            let rshared = run_hist(RelocateReader::new(EndianRcSlice::new(rc.clone(), e), cnt2.clone()), &rc, &ops, Some(&cnt2), None);
 
             let mut out = format!("ok {}", shared.trace.join(" "));
             let mut oracle: Option<String> = None;
@@ -605,20 +583,11 @@ pub fn handle(op: &str, a: &[&str]) -> Option<String> {
                     note(&mut oracle, format!("kinds-differ {name} vs rc at op {k}: {:?} vs {:?}", r.trace.get(k), shared.trace.get(k)));
                 }
             }
-            let mut detaches: Option<String> = None;
             for (name, r) in [("slice", &slice), ("rslice", &rslice), ("rshared", &rshared)] {
                 if r.trace != shared.trace {
                     out.push_str(&format!(" ~{name} {}", r.trace.join(" ")));
-                    for k in diff_positions(&r.trace, &shared.trace) {
-                        let attributable = name != "rshared" && r.tainted.get(k).copied().unwrap_or(false);
-                        if attributable {
-                            if detaches.is_none() {
-                                detaches = Some(format!("slice-empty-detaches {name} vs rc at op {k}: {:?} vs {:?}", r.trace.get(k), shared.trace.get(k)));
-                            }
-                        } else {
-                            note(&mut oracle, format!("kinds-differ {name} vs rc at op {k}: {:?} vs {:?}", r.trace.get(k), shared.trace.get(k)));
-                        }
-                    }
+                    let k = diff_positions(&r.trace, &shared.trace)[0];
+                    note(&mut oracle, format!("kinds-differ {name} vs rc at op {k}: {:?} vs {:?}", r.trace.get(k), shared.trace.get(k)));
                 }
             }
             for r in [&slice, &shared, &arcr, &custom, &rslice, &rshared] {
@@ -626,7 +595,6 @@ pub fn handle(op: &str, a: &[&str]) -> Option<String> {
                     note(&mut oracle, p.clone());
                 }
             }
-            let oracle = oracle.or(detaches);
             if let Some(o) = oracle {
                 out.push_str(" #oracle:");
                 out.push_str(&o);
@@ -732,7 +700,7 @@ pub fn handle(op: &str, a: &[&str]) -> Option<String> {
             }
             if !panicked.is_empty() && oracle.is_none() {
                 // a panic under some kinds only is a difference between kinds; under all kinds it is C01's business
-                let class = if panicked.len() == 6 { "parse-panics" } else if panicked.iter().all(|k| *k == "rslice" || *k == "slice") { "slice-empty-detaches" } else { "kinds-differ-parse" };
+                let class = if panicked.len() == 6 { "parse-panics" } else { "kinds-differ-parse" };
                 oracle = Some(format!("{class} panic under {}", panicked.join(",")));
             }
             if let Some(o) = oracle {
@@ -1014,7 +982,7 @@ pub fn gen(ctx: &Ctx, emit: &mut dyn FnMut(String)) {
         let e = if rng.chance(1, 2) { "le" } else { "be" };
         let nops = 1 + rng.below(if thorough { 40 } else { 24 }) as usize;
         // 55 %: no `empty` and no assertion-failing offset_from (kinds must agree exactly);
-        // 30 %: with `empty` (C10-1 territory); 15 %: everything incl. panicking misuse
+        // 30 %: with `empty` (kept for the C10-1 regression); 15 %: everything incl. panicking misuse
         let (allow_empty, allow_panic) = match k % 20 {
             0..=10 => (false, false),
             11..=16 => (true, false),
